@@ -15,13 +15,11 @@ type cgraph struct {
 	kind string
 }
 
-var cgCache = map[*Ctx]*cgraph{}
-
 // graph returns the whole-program call graph: CHA in the quick tier, CHA
 // refined by VTA in the thorough tier (x/tools v0.29.0 has no go/pointer).
 func (c *Ctx) graph() *cgraph {
-	if g, ok := cgCache[c]; ok {
-		return g
+	if c.cg != nil {
+		return c.cg
 	}
 	g := cha.CallGraph(c.Prog)
 	kind := "cha"
@@ -30,7 +28,7 @@ func (c *Ctx) graph() *cgraph {
 		kind = "vta"
 	}
 	cg := &cgraph{g: g, kind: kind}
-	cgCache[c] = cg
+	c.cg = cg
 	return cg
 }
 
